@@ -2,9 +2,9 @@ package checks
 
 import (
 	"context"
+	"database/sql"
 	"database/sql/driver"
 	"fmt"
-	"io"
 	"strings"
 
 	"github.com/alicebob/sqlittle"
@@ -232,45 +232,66 @@ func StdOps(s OpSpec) []Op {
 	return ops
 }
 
-// driverQuery runs a query through the driver's Statement on the given handle
-// (VerifStatement hook), draining it the way database/sql does.
+// driverQuery runs a query through database/sql itself on the given handle: a connector hands
+// database/sql the driver's own Statement (VerifStatement hook) for every Prepare, so what the caller
+// sees - which errors reach rows.Err and which are dropped on the way - is decided by the real
+// database/sql code, not by a re-implementation of its draining loop.
 func driverQuery(h *sqlittle.DB, q string, c *collector) error {
 	return driverQueryCB(h, q, c.add, c)
 }
 
+type verifConnector struct{ h *sqlittle.DB }
+
+func (c verifConnector) Connect(context.Context) (driver.Conn, error) { return verifConn{c.h}, nil }
+func (c verifConnector) Driver() driver.Driver                        { return &sdriver.Driver{} }
+
+type verifConn struct{ h *sqlittle.DB }
+
+func (c verifConn) Prepare(q string) (driver.Stmt, error) {
+	return verifStmt{sdriver.VerifStatement(c.h, q)}, nil
+}
+func (c verifConn) Close() error              { return nil }
+func (c verifConn) Begin() (driver.Tx, error) { return nil, fmt.Errorf("no transactions") }
+
+// the handle belongs to the harness: closing the statement leaves it open
+type verifStmt struct{ *sdriver.Statement }
+
+func (s verifStmt) Close() error { return nil }
+
 func driverQueryCB(h *sqlittle.DB, q string, add func(row []interface{}) bool, _ *collector) error {
-	st := sdriver.VerifStatement(h, q)
-	rows, err := st.QueryContext(context.Background(), nil)
+	pool := sql.OpenDB(verifConnector{h})
+	defer pool.Close()
+	rows, err := pool.Query(q)
 	if err != nil {
 		return err
 	}
-	n := len(rows.Columns())
-	var rerr error
-	for {
-		dest := make([]driver.Value, n)
-		err := rows.Next(dest)
-		if err == io.EOF {
-			break
-		}
-		if err != nil {
-			rerr = err
-			break
-		}
+	cols, err := rows.Columns()
+	if err != nil {
+		rows.Close()
+		return err
+	}
+	n := len(cols)
+	stopped := false
+	for rows.Next() {
 		row := make([]interface{}, n)
-		for i, v := range dest {
-			if b, ok := v.([]byte); ok {
-				row[i] = append([]byte{}, b...)
-			} else {
-				row[i] = v
-			}
+		ptrs := make([]interface{}, n)
+		for i := range row {
+			ptrs[i] = &row[i]
+		}
+		if err := rows.Scan(ptrs...); err != nil {
+			rows.Close()
+			return err
 		}
 		if add(row) {
+			stopped = true
 			break
 		}
 	}
-	cerr := rows.Close()
-	if rerr != nil {
-		return rerr
+	if !stopped {
+		if err := rows.Err(); err != nil {
+			rows.Close()
+			return err
+		}
 	}
-	return cerr
+	return rows.Close()
 }
